@@ -233,7 +233,14 @@ func RunOpReused(r OpReq, warm [][]*ref.T, warmFirst bool) (last Outcome, first 
 				if err != nil {
 					return nil, err
 				}
-				return op.Apply(vin)
+				res, err := op.Apply(vin)
+				// the returned list is the caller's: it takes the tensors out and clears the list
+				// (as a caller that recycles the list for its next call does)
+				out := append([]tensor.Tensor{}, res...)
+				for i := range res {
+					res[i] = nil
+				}
+				return out, err
 			})
 		}
 		phase = "validate"
@@ -509,11 +516,12 @@ type ModelOpts struct {
 	Truncate  bool   // drop trailing absent inputs instead of naming them ""
 	DynamicIn bool   // declare graph inputs with symbolic dimensions
 	IR        int64  // ir_version of the model (0 = the usual one, < 0 = absent)
+	NoNames   bool   // the node carries no name
 }
 
 // BuildOpModel renders the request as a single-node model.
 func BuildOpModel(r OpReq, mo ModelOpts) (*Graph, map[string]*ref.T) {
-	g := &Graph{IR: mo.IR}
+	g := &Graph{IR: mo.IR, NoNames: mo.NoNames}
 	feed := map[string]*ref.T{}
 	node := GNode{Op: r.Op, Attrs: r.Attrs, Outputs: r.outNames()}
 	names := map[*ref.T]string{} // one operand object at several positions = one graph value read twice
